@@ -175,7 +175,7 @@ def main(argv=None):
         print('ledger updated:', {p: len(v) for p, v in led.items()})
     rc = 0
     for p in props:
-        rc = max(rc, report(p, [r for r in results if p in r['props']], ledger, a.tier, seed, t_start))
+        rc = max(rc, report(p, [r for r in results if p in r['props']], {} if a.only else ledger, a.tier, seed, t_start))
     return rc
 
 
@@ -246,7 +246,7 @@ def report(prop, results, ledger, tier, seed, t_start):
             undecided.append({'obligation': o['id'], 'reason': 'symbolic counterexample not reproduced natively'})
             lines.append(f"UNDECIDED obligation={o['id']} reason=counterexample-not-reproduced replay={rp_path}")
         else:
-            if o['id'] in expected or not expected:
+            if o['id'] in expected:
                 lines.append(f'VIOLATION property={prop} replay={rp_path} no-failing-input-found')
                 violations += 1
             else:
